@@ -38,6 +38,9 @@ MOVED_U = ("len(self._undo_list) == len(old(self._undo_list)) - {j} and "
            "len(self._redo_list) == len(old(self._redo_list)) + {j} and "
            "forall(lambda a: implies(0 <= a and a < len(old(self._redo_list)), self._redo_list[a] == old(self._redo_list)[a])) and "
            "forall(lambda b: implies(0 <= b and b < {j}, self._redo_list[len(old(self._redo_list)) + b] == old(self._undo_list)[len(old(self._undo_list)) - 1 - b])) and "
+           # (the same fact, indexed by the position in the redo list: what the callers' slices need)
+           "forall(lambda c: implies(len(old(self._redo_list)) <= c and c < len(old(self._redo_list)) + {j}, "
+           "       self._redo_list[c] == old(self._undo_list)[len(old(self._undo_list)) - 1 - (c - len(old(self._redo_list)))])) and "
            "tree == undone(old(self._undo_list), {j}, old(tree))")
 contract("History._perform_undos#any-count", source=M + "History._perform_undos", params={"self": "History", "count": "Int", "task_handle": "BaseTaskHandle"},
          requires=["0 <= count and count <= len(self._undo_list)", "is_none(self.current_change)", "0 <= faults and faults <= 1"],
